@@ -308,7 +308,7 @@ fn c07(args: Args) {
     run.assume("T4: one address per family per NS host; glue equals the child's own records; qtype CNAME on a multi-link chain may return any prefix");
     run.assume("cache clock frozen (TTLs >= 60): expiry is the business of C05");
     let hub = TraceHub::new(&args, THREADS);
-    hub.start_hang_monitor(Duration::from_secs(120));
+    hub.start_hang_monitor(Duration::from_secs(30));
     let n = args.size(1_000_000, 40_000_000);
     let seed = args.seed;
     run.parallel(THREADS, STACK, |ti, sh| {
@@ -546,7 +546,7 @@ fn c18(args: Args) {
     );
     run.assume("destination address -> name server is a function (every generated host has unique addresses)");
     let hub = TraceHub::new(&args, THREADS);
-    hub.start_hang_monitor(Duration::from_secs(120));
+    hub.start_hang_monitor(Duration::from_secs(30));
     let n = args.size(800_000, 30_000_000);
     let seed = args.seed;
     run.parallel(THREADS, STACK, |ti, sh| {
@@ -589,6 +589,12 @@ pub enum Fault {
     LameReferral,
     UpwardReferral,
     SelfAlias,
+    /// one reply whose answer section aliases the question into a cycle that does not contain the question name
+    AliasCycleInReply,
+    /// ... into a target that aliases itself
+    AliasToSelfLoopInReply,
+    /// a referral whose glue names a host through an alias cycle
+    GlueAliasCycle,
 }
 
 pub const PRINCIPAL: [Fault; 12] = [
@@ -606,7 +612,10 @@ pub const PRINCIPAL: [Fault; 12] = [
     Fault::EmptyNoError,
 ];
 
-pub const ALL_FAULTS: [Fault; 22] = [
+pub const ALL_FAULTS: [Fault; 25] = [
+    Fault::AliasCycleInReply,
+    Fault::AliasToSelfLoopInReply,
+    Fault::GlueAliasCycle,
     Fault::Ok,
     Fault::Drop,
     Fault::Delay4900,
@@ -723,6 +732,34 @@ pub fn apply_fault(f: Fault, req: &Message, honest: &universe::ServerReply, rng:
         Fault::SelfAlias => {
             let q = &req.questions[0];
             Action::Reply(encode(&reply_to(req, Rcode::NoError, true, vec![rr(&q.name, cname(&q.name), 300)], vec![], vec![])))
+        }
+        Fault::AliasCycleInReply => {
+            let q = &req.questions[0];
+            let (x, y) = (dn("cycle-a.invalid."), dn("cycle-b.invalid."));
+            let mut answers = vec![rr(&q.name, cname(&x), 300), rr(&x, cname(&y), 300), rr(&y, cname(&x), 300)];
+            if rng.bool() {
+                answers.rotate_left(1);
+            }
+            Action::Reply(encode(&reply_to(req, Rcode::NoError, true, answers, vec![], vec![])))
+        }
+        Fault::AliasToSelfLoopInReply => {
+            let q = &req.questions[0];
+            let x = dn("selfloop.invalid.");
+            Action::Reply(encode(&reply_to(req, Rcode::NoError, true, vec![rr(&q.name, cname(&x), 300), rr(&x, cname(&x), 300)], vec![], vec![])))
+        }
+        Fault::GlueAliasCycle => {
+            // a (deeper) referral whose name server is "reachable" only through aliases that loop
+            let q = &req.questions[0];
+            let host = dn("ns.gluecycle.invalid.");
+            let (x, y) = (dn("g1.gluecycle.invalid."), dn("g2.gluecycle.invalid."));
+            Action::Reply(encode(&reply_to(
+                req,
+                Rcode::NoError,
+                false,
+                vec![],
+                vec![rr(&q.name, ns(&host), 300)],
+                vec![rr(&host, cname(&x), 300), rr(&x, cname(&y), 300), rr(&y, cname(&x), 300)],
+            )))
         }
     }
 }
@@ -946,7 +983,7 @@ fn c08(args: Args) {
     run.exhaustive = true;
     run.set_extra("exhaustive_part", json!(format!("all 12^{k} assignments of the principal faults to the first {k} exchanges, per universe/question/mode: complete; random plans and hostile universes are sampling")));
     let hub = TraceHub::new(&args, THREADS);
-    hub.start_hang_monitor(Duration::from_secs(120));
+    hub.start_hang_monitor(Duration::from_secs(30));
     let seed = args.seed;
     let n_random = args.size(200_000, 8_000_000);
     // six fixed universes (by seed), one question each chosen to need several exchanges
@@ -1028,6 +1065,53 @@ fn c08(args: Args) {
                     }
                     if sh.want_sample() && p == 1234 % total_plans {
                         sh.sample(replay());
+                    }
+                }
+            }
+        }
+
+        // --- single-fault sweep: every fault kind at each of the first 6 exchanges (honest before and after)
+        for (ui, (u, q)) in fixed.iter().enumerate() {
+            let hints = u.hints_zone();
+            let local = local_records(&hints);
+            let mut zones = Zones::new();
+            zones.insert(hints);
+            for forwarding in [false, true] {
+                for (fi, fault) in ALL_FAULTS.iter().enumerate() {
+                    for pos in 0..6usize {
+                        job += 1;
+                        if job % THREADS != ti {
+                            continue;
+                        }
+                        let mut plan = vec![Fault::Ok; pos];
+                        plan.push(*fault);
+                        let mode = if forwarding { Mode::forwarding(fwd_addr) } else { Mode::recursive(ProtocolMode::OnlyV4, 53) };
+                        let cache = SharedCache::new();
+                        let supplied = Arc::new(Mutex::new(Supplied::default()));
+                        let responder: Responder = if forwarding {
+                            forwarder_responder(u.clone(), plan.clone(), Fault::Ok, rng.fork(fi as u64), supplied.clone())
+                        } else {
+                            c08_responder(C08Net {
+                                u: u.clone(),
+                                plan: plan.clone(),
+                                after_plan: Fault::Ok,
+                                hostile: Hostile::None,
+                                rng: rng.fork(fi as u64),
+                                supplied: supplied.clone(),
+                            })
+                        };
+                        sh.eval();
+                        tr.begin(|| json!({"class": "single-fault", "universe": ui, "plan": format!("{plan:?}"), "forwarding": forwarding, "question": question_json(q)}));
+                        let out = sim.resolve(responder, &mode, &zones, &cache, q);
+                        tr.end();
+                        let replay = || {
+                            json!({"kind": "fault-plan", "class": "single-fault", "fixed_universe": ui, "mode": mode.name(), "plan": format!("{plan:?}"), "then": "Ok",
+                                   "question": question_json(q), "universe": u.describe(), "result": result_json(&out.result),
+                                   "virtual_elapsed_ms": out.elapsed.as_millis() as u64, "exchanges": log_json(&out.log)})
+                        };
+                        c08_check(&out, &supplied.lock().unwrap(), &local, sh, &replay, &mode);
+                        sh.count("runs:single-fault-sweep", 1);
+                        sh.nontrivial(fnv_mix(fnv_mix(0x51f, (ui * 1000 + fi * 10 + pos) as u64), forwarding as u64));
                     }
                 }
             }
